@@ -160,10 +160,14 @@ def make_jobs(items, want, N, settings=None, timeout=150, extra=None):
     return jobs
 
 
-def run_tlc(traces, workers=16, timeout=1500):
+def run_tlc(traces, workers=16, timeout=None):
     if not traces:
         return {}, {"states": 0, "distinct": 0, "tlc_runs": 0, "tlc_wall_s": 0.0, "D": []}, {}
-    return tlc.run_batches(traces, workers=workers, timeout=timeout)
+    quick = os.environ.get("VERIF_TIER_EFFECTIVE", "quick") == "quick"
+    if timeout is None:
+        # a TLC run that does not finish is not judged (counted as tlc_timeouts); the quick tier must stay short
+        timeout = 240 if quick else 1500
+    return tlc.run_batches(traces, workers=workers, timeout=timeout, chunk=25 if quick else 60)
 
 
 # ------------------------------------------------------------------------------------------------
